@@ -78,6 +78,9 @@ func CheckSingleWriter(res *ChurnResult) (findings []Finding, uncertainKeys int,
 		if y, t, ok := ackedWriteWentToNonOwner(res, o, m); ok {
 			key += ":written-to-non-owner"
 			what += fmt.Sprintf(" [the acknowledged write was executed at t=%dus by a node that was not the owner: node %d (joined, not leaving) owned the key then]", t, y)
+		} else if x, y, t, ok := readServedByNonOwner(res, o); ok {
+			key += ":read-from-non-owner"
+			what += fmt.Sprintf(" [this read was answered at t=%dus from the store of node %d, which was not the owner: node %d (joined, not leaving) owned the key then]", t, x, y)
 		}
 		findings = append(findings, Finding{Key: key, What: what, Witness: map[string]any{"op": o, "model_value": m.value, "model_children": setString(m.children), "last_ack": m.lastAck, "member_log": res.MemberLog, "hook_log": res.HookLog, "store_events": storeEvents(res, o.Key+"/")}})
 	}
@@ -543,6 +546,10 @@ func CheckLinearizable(res *ChurnResult, timeout time.Duration) (findings []Find
 				key += ":written-to-non-owner"
 				_ = o
 				_ = t
+			} else if _, _, ok := anyClientReadOnNonOwner(res, pk[:strings.Index(pk, "/")], strings.HasSuffix(pk, "/prefix")); ok && !strings.Contains(key, ":list-") {
+				// the same stale-pointer window seen from the other side: a read was answered from the
+				// (empty or outdated) copy of a node that was not the owner
+				key += ":read-from-non-owner"
 			}
 			sort.Slice(p.raw, func(i, j int) bool { return p.raw[i].Call < p.raw[j].Call })
 			findings = append(findings, Finding{Key: key,
@@ -739,4 +746,91 @@ func anyClientWriteOnNonOwner(res *ChurnResult, key string) (owner uint64, at in
 		}
 	}
 	return 0, 0, false
+}
+
+// CheckPredPointer turns what the predecessor-pointer monitor recorded into findings. A
+// predecessor pointer that moves away from a live node makes its owner claim (and accept writes
+// for) a range that belongs to that node: the behavioural oracles would only see the data that
+// was misplaced by it, this one sees the cause.
+func CheckPredPointer(res *ChurnResult) (findings []Finding) {
+	for i, r := range res.PredRegressions {
+		if i >= 3 {
+			break
+		}
+		findings = append(findings, Finding{Key: "predecessor-moved-away-from-live-node", What: r.String(),
+			Witness: map[string]any{"regression": r, "member_log": res.MemberLog, "hook_log": tailStr(res.HookLog, 80)}})
+	}
+	return
+}
+
+func tailStr(a []string, n int) []string {
+	if len(a) > n {
+		return a[len(a)-n:]
+	}
+	return a
+}
+
+func definiteOwner(res *ChurnResult, node uint64, t int64, hash uint64) uint64 {
+	ids := []uint64{node}
+	for id, sp := range res.Timeline {
+		if id == node || sp.Joined == 0 || sp.Joined > t || (sp.LeaveStart != 0 && sp.LeaveStart <= t) {
+			continue
+		}
+		ids = append(ids, id)
+	}
+	sort.Slice(ids, func(i, j int) bool { return ids[i] < ids[j] })
+	return OwnerOf(ids, hash)
+}
+
+// anyClientReadOnNonOwner: some client read of the key (Get for the simple partition;
+// List / Contains for the prefix partition) was answered by the store of a node while another
+// node that had definitely joined and was not leaving owned the key.
+func anyClientReadOnNonOwner(res *ChurnResult, key string, prefix bool) (owner uint64, at int64, ok bool) {
+	if res.StoreEventsFor == nil {
+		return 0, 0, false
+	}
+	hash := chord.Hash([]byte(key))
+	for _, e := range res.StoreEventsFor(key) {
+		switch e.Op {
+		case "Get":
+			if prefix {
+				continue
+			}
+		case "List", "Contains":
+			if !prefix {
+				continue
+			}
+		default:
+			continue
+		}
+		if !strings.HasSuffix(e.Res, "ok") {
+			continue
+		}
+		if o := definiteOwner(res, e.Node, e.T, hash); o != e.Node {
+			return o, e.T, true
+		}
+	}
+	return 0, 0, false
+}
+
+// readServedByNonOwner: the store-level execution of this very read (same key, matching
+// operation, inside the read's [call, return]) happened on a node that was not the owner.
+func readServedByNonOwner(res *ChurnResult, read OpRec) (node, owner uint64, at int64, ok bool) {
+	if res.StoreEventsFor == nil {
+		return
+	}
+	want := map[OpKind]string{OpGet: "Get", OpList: "List", OpContains: "Contains"}[read.Kind]
+	if want == "" {
+		return
+	}
+	hash := chord.Hash([]byte(read.Key))
+	for _, e := range res.StoreEventsFor(read.Key) {
+		if e.Op != want || e.T < read.Call/1000-1 || e.T > read.Return/1000+1 {
+			continue
+		}
+		if o := definiteOwner(res, e.Node, e.T, hash); o != e.Node {
+			return e.Node, o, e.T, true
+		}
+	}
+	return
 }
